@@ -166,8 +166,39 @@ class Graph:
         if not directed:
             self.P = ref.weighted_path_counts(self.A, self.D)
             self.Pw = ref.weighted_path_counts(self.A, self.D, self.w)
-        self.net = IN(adjacency=self.A.astype(np.int8), directed=directed,
-                      node_weights=self.w.copy(), silence_level=3)
+        # A third of the objects have a past: other node weights and link
+        # attribute first, group measures queried, then the final values.
+        past = self.N >= 2 and (int(self.A.sum()) + self.N) % 3 == 0
+        if past:
+            import warnings
+            self.net = IN(adjacency=self.A.astype(np.int8),
+                          directed=directed,
+                          node_weights=self.w[::-1] * 1.5 + 0.25,
+                          silence_level=3)
+            self.net.set_link_attribute(LW, self.W * 2.0 + 1.0)
+            h = self.N // 2 or 1
+            a, b = list(range(h)), list(range(h, self.N)) or [0]
+            with warnings.catch_warnings():
+                warnings.simplefilter("ignore")
+                with np.errstate(all="ignore"):
+                    for q, args in (("nsi_cross_degree", (a, b)),
+                                    ("nsi_internal_degree", (a,)),
+                                    ("nsi_cross_local_clustering", (a, b)),
+                                    ("nsi_cross_mean_degree", (a, b)),
+                                    ("cross_degree", (a, b, LW)),
+                                    ("cross_average_path_length", (a, b, LW)),
+                                    ("nsi_cross_closeness_centrality",
+                                     (a, b))):
+                        try:
+                            getattr(self.net, q)(*args)
+                        except Exception:  # noqa
+                            pass
+            self.net.node_weights = self.w.copy()
+        else:
+            self.net = IN(adjacency=self.A.astype(np.int8),
+                          directed=directed, node_weights=self.w.copy(),
+                          silence_level=3)
+        self.past = past
         self.net.set_link_attribute(LW, self.W.copy())
         self.key = (self.N, self.directed, self.A.tobytes())
         # without links igraph has no edge attribute at all: the weighted
@@ -988,6 +1019,14 @@ def make_graph(ctx, IN, A, directed, rng, idx):
     n = len(A)
     w = gg.pos_weights(rng, n, ["loguni", "ints", "unit", "loguni"][idx % 4])
     W = gg.link_attr(rng, A, directed, ties=(idx % 3 == 0))
+    if idx % 5 == 2 and A.any():
+        # zero-length links: distinct nodes at weighted distance 0
+        z = rng.random(W.shape) < 0.3
+        if not directed:
+            z = np.triu(z, 1)
+            z = z | z.T
+        W = np.where(z, 0.0, W)
+        ctx.count("graphs_with_zero_length_links")
     return Graph(IN, A, directed, w, W)
 
 
